@@ -44,6 +44,15 @@ class ProgCheck(Check):
                     x["meta"].pop("ast", None)
         return Check.finish(self)
 
+    def prog2_case(self, cid, prog1, prog2, meta=None):
+        """prog1 then prog2 in the same context (prog2 typically probes that the context is still usable)"""
+        src1, src2 = progen.program_src(prog1), progen.program_src(prog2)
+        impl = "|".join(["new 0", "%s 0 %s" % (self.mode, hx(src1)), "%s 0 %s" % (self.mode, hx(src2)), "out 0", "dump 0"])
+        m = dict(meta or {})
+        m["src"] = src1 + "-- second program --\n" + src2
+        m["two"] = True
+        return Case(cid, "progs %d %s %s" % (self.fuel, hx(progen.program_sexp(prog1)), hx(progen.program_sexp(prog2))), impl, m)
+
     def split_impl(self, c, iraw):
         """-> (outcome, out_hex, dump dict or None)"""
         if iraw.startswith("crash ") or iraw.endswith("diverges"):
@@ -53,7 +62,7 @@ class ProgCheck(Check):
         for i, p in enumerate(parts):
             if p.startswith("out="):
                 out = p[4:]
-                outcome = parts[i - 1]
+                outcome = parts[i - 1] if not c.meta.get("two") else parts[i - 2] + ";" + parts[i - 1]
             elif p.startswith("dump="):
                 dump = parse_dump(p)
         return outcome, out, dump
@@ -87,7 +96,11 @@ class ProgCheck(Check):
             kf = self.hazard_kf(c, moutc.split()[1])
             m2["kf"] = kf
             return Check.judge(self, Case(c.cid, c.model_line, c.impl_line, c.meta), outcome if outcome else iraw, m2, stderr) if False else self.judge_hazard(c, outcome or iraw, m2, stderr)
-        if outcome is None or not outcomes_agree(outcome, moutc):
+        if c.meta.get("two") and outcome and ";" in outcome and ";" in moutc:
+            ok2 = all(outcomes_agree(a, b) for a, b in zip(outcome.split(";"), moutc.split(";")))
+        else:
+            ok2 = outcome is not None and outcomes_agree(outcome, moutc)
+        if not ok2:
             return self.record_violation("program outcome differs from the model", c, outcome, m2, stderr)
         if out != mo:
             m2["spec"] = None
